@@ -155,7 +155,8 @@ func (f *File) RowContent() []string {
 	if f.currentRow == nil {
 		return []string{}
 	}
-	return f.currentRow.cells
+	// The underlying reader reuses the record slice for the next row, so hand out a copy.
+	return append([]string(nil), f.currentRow.cells...)
 }
 
 func (f *File) RowNumber() int {
